@@ -175,8 +175,12 @@ def parse_vp_prints(prints):
 
 # --------------------------------------------------------------------------- Go harness
 
+def _repo_tag():
+    return "" if REPO == "/repo" else "-" + hashlib.sha1(REPO.encode()).hexdigest()[:8]
+
+
 def overlay_path():
-    return os.path.join(WORK, "overlay.json")
+    return os.path.join(WORK, "overlay%s.json" % _repo_tag())
 
 
 def build_overlay():
@@ -198,7 +202,7 @@ def build_overlay():
 def go_build_test(pkg, tags="verif", timeout=1500):
     """Compile the test binary of a repo package (current working tree + overlay)."""
     build_overlay()
-    bindir = os.path.join(WORK, "bin")
+    bindir = os.path.join(WORK, "bin" + _repo_tag())
     os.makedirs(bindir, exist_ok=True)
     out = os.path.join(bindir, pkg.strip("./").replace("/", "_") + "." + tags.replace(",", "_") + ".test")
     cmd = ["go", "test", "-c", "-vet=off", "-tags", tags, "-overlay", overlay_path(), "-o", out, pkg]
@@ -224,7 +228,7 @@ class Ctx:
         self.prop, self.tier, self.seed = prop, tier, seed
         self.quick = (tier == "quick")
         self.t0 = time.time()
-        self.work = os.path.join(WORK, prop)
+        self.work = os.path.join(WORK, prop + _repo_tag())
         shutil.rmtree(self.work, ignore_errors=True)
         os.makedirs(self.work, exist_ok=True)
         self.states = 0
